@@ -77,6 +77,16 @@ def run(ctx):
             if not ctx.thorough or k % 16 == 0:
                 fr = frame(c, i, rb(rng.randrange(3, 80))).hex()
                 yield ("c01", {"f": fr, "mode": rng.choice((0, 1, 2, 3)), "pbf": rng.choice((0, 1)), "validate": rng.choice((0, 1))})
+        # frames within frames: the payload is itself a complete frame (same / other class-ID, UBX, NMEA), once and twice nested
+        nest = list(known[:: (7 if not ctx.thorough else 1)]) + [(rng.randrange(256), rng.randrange(256)) for _ in range(40)]
+        for (c, i) in nest:
+            for n in (0, 2, 9):
+                inner = frame(c, i, rb(n))
+                for pl in (inner, frame(c, (i + 1) % 256, rb(n)), frame(c, i, inner), inner + b"\x00", b"\x00" + inner, inner[:-1],
+                           b"$GNGLL,5327.03942,N,00214.42462,W,103607.00,A,A*68\r\n"):
+                    fr = frame(c, i, pl).hex()
+                    for (m, p) in ((0, 1), (1, 0), (3, 1)):
+                        yield ("c01", {"f": fr, "mode": m, "pbf": p, "validate": 1})
         # very long payloads (length field up to ffff)
         big = [65535, 65534, 40000, 32769, 32768, 32767, 4096, 1000, 258, 257, 256, 255, 254]
         for n in big if ctx.thorough else [65535, 32768, 32767, 4096, 257, 256, 255]:
@@ -101,6 +111,26 @@ def run(ctx):
                     yield ("c01", {"f": fr, "mode": 3 if l["m"] else 0, "pbf": 0 if l["pbf"] else 1, "validate": 0})
 
     run_batch(ctx, MODULE, CFG, gen_lay(), frames.OBSERVERS, sigfn, negfn)
+
+    # hostile histories: the same frames parsed right after refused constructions / failed parses / lenient parses in the same interpreter
+    from ..drivers import history
+
+    hists = history.recipes(lays, rng, walk.fill, cfgdb)
+
+    def gen_hist():
+        for k, l in enumerate(lays):
+            if l["c"] != 1:
+                continue
+            P = walk.fill(l, "rand", rng, cfgdb)
+            fr = frame(l["cls"], l["id"], P)
+            h = list(hists[k % len(hists)]) if hists else []
+            h.append({"op": "parse", "f": fr.hex(), "mode": l["m"], "pbf": 1, "validate": 0, "inspect": 1})
+            bad = fr[:-1] + bytes([fr[-1] ^ 0x55])
+            h.append({"op": "parse", "f": bad.hex(), "mode": l["m"], "pbf": 1, "validate": 0})
+            yield ("c01", {"f": fr.hex(), "mode": l["m"], "pbf": 1 if l["pbf"] else 0, "validate": 1, "hist": h})
+
+    run_batch(ctx, MODULE, CFG, gen_hist(), frames.OBSERVERS, sigfn, negfn)
+    ctx.extra["hostile_histories"] = len(hists)
     ctx.extra["definition_layout_frames"] = len(lays)
     ctx.exhaustive = False
     ctx.extra["class_id_pairs"] = len(set(known) | set(allpairs))
